@@ -13,6 +13,11 @@
 (*           non-current when the drain phase began is released within      *)
 (*           ceil(live records / 2) + BoundDrain cycles (2 records are      *)
 (*           relocated per cycle, one more cycle marks the last ones);      *)
+(*  oldest   a non-current file that a completed cycle emptied (it had bytes  *)
+(*           before the cycle and none after) and that is then the oldest   *)
+(*           file present was the oldest when it was visited (files are     *)
+(*           visited in ascending order) and must have been unlinked, not   *)
+(*           left as a 0-byte file;                                         *)
 (*  growth   a GC cycle never increases the reported storage (16 bytes of   *)
 (*           slack for a header whose first-file number gains a digit;      *)
 (*           relocated records are not on disk before the next flush);      *)
@@ -24,12 +29,13 @@ EXTENDS TraceLib, Fsck
 BoundDead == 2
 BoundDrain == 3
 
-VARIABLES l, pdead, idead, drain, prevSS
+VARIABLES l, pdead, idead, drain, prevSS, prevSz
+\* prevSz: [p, i] file number -> size at the previous quiescent point (<<>> when unknown)
 \* pdead / idead: file number -> completed cycles survived while dead
 \* drain: file number -> [left |-> cycles left] for files being drained (threshold 0 phase)
-vars == <<l, pdead, idead, drain, prevSS>>
+vars == <<l, pdead, idead, drain, prevSS, prevSz>>
 
-Init == l = 1 /\ pdead = <<>> /\ idead = <<>> /\ drain = <<>> /\ prevSS = -1 /\ RegInit
+Init == l = 1 /\ pdead = <<>> /\ idead = <<>> /\ drain = <<>> /\ prevSS = -1 /\ prevSz = [p |-> <<>>, i |-> <<>>] /\ RegInit
 
 MaxN(files) == IF Len(files) = 0 THEN -1 ELSE files[Len(files)].n
 FileOfPri(P, off) == off \div P.ph.limit
@@ -50,6 +56,13 @@ LiveIn(P, bk, n) == Cardinality({en \in LiveEntries(P, bk) : FileOfPri(P, en.off
 Bump(cnt, dead, sizeOf) ==  \* one more completed cycle for files that were dead before it
   [n \in {m \in DOMAIN cnt : sizeOf[m] > 0} |-> cnt[n] + 1]
 
+Sizes(files) == [n \in {files[j].n : j \in 1..Len(files)} |-> (CHOOSE f \in RangeOf(files) : f.n = n).size]
+MinN(files) == files[1].n
+\* emptied by this cycle, still present with 0 bytes, non-current and the oldest file present
+EmptiedOldestStays(files, before) ==
+  /\ Len(files) > 1
+  /\ files[1].size = 0
+  /\ files[1].n \in DOMAIN before /\ before[files[1].n] > 0
 HasSt(e) == "st" \in DOMAIN e /\ "readerr" \notin DOMAIN e.st
 Completed(e) == e.gcerr = "" /\ e.panic = ""
 
@@ -63,6 +76,10 @@ Rules(e) ==
   \cup (IF e.e = "prigc" /\ Completed(e) /\ HasSt(e) /\ e.lowUse = 0
          /\ (\E n \in DOMAIN drain : drain[n] - 1 < 0 /\ PriSize(e.st, n) > 0)
       THEN {"low-use-file-not-drained"} ELSE {})
+  \cup (IF e.e = "prigc" /\ Completed(e) /\ HasSt(e) /\ EmptiedOldestStays(e.st.pf, prevSz.p)
+      THEN {"emptied-oldest-primary-file-not-unlinked"} ELSE {})
+  \cup (IF e.e = "idxgc" /\ Completed(e) /\ HasSt(e) /\ EmptiedOldestStays(e.st.if, prevSz.i)
+      THEN {"emptied-oldest-index-file-not-unlinked"} ELSE {})
   \cup (IF e.e \in {"prigc", "idxgc"} /\ "ss" \in DOMAIN e /\ prevSS >= 0 /\ e.sserr = "" /\ e.ss > prevSS + 16
       THEN {"gc-increased-storage"} ELSE {})
   \cup (IF e.e = "gcfix" /\ e.panic = ""
@@ -75,6 +92,8 @@ Next ==
   /\ LET e == Trace[l] IN
        /\ Flag(e, IF e.e = "reset" THEN {} ELSE Rules(e))
        /\ prevSS' = (IF e.e = "reset" THEN -1 ELSE IF "ss" \in DOMAIN e /\ e.sserr = "" THEN e.ss ELSE prevSS)
+       /\ prevSz' = (IF e.e = "reset" THEN [p |-> <<>>, i |-> <<>>]
+                     ELSE IF HasSt(e) THEN [p |-> Sizes(e.st.pf), i |-> Sizes(e.st.if)] ELSE prevSz)
        /\ IF e.e = "reset" \/ e.e = "reopen" \/ e.e = "openwrong"
           THEN pdead' = <<>> /\ idead' = <<>> /\ drain' = <<>>
           ELSE IF ~HasSt(e) THEN UNCHANGED <<pdead, idead, drain>>
